@@ -151,6 +151,36 @@ Definition unpack (xs : list name) (v : val) : tri (list (name * val)) :=
   | _ => TThrow
   end.
 
+(* does the catch pattern accept the thrown value (TOk: what it binds), refuse it (TThrow), or
+   is the question outside the vocabulary (strings unpack into characters; an opaque error string
+   might equal a string literal) *)
+Fixpoint nodupb (xs : list name) : bool :=
+  match xs with
+  | [] => true
+  | x :: r => negb (existsb (String.eqb x) r) && nodupb r
+  end.
+
+Definition match_cpat (p : cpat) (v : val) : tri (list (name * val)) :=
+  match p with
+  | CName x => TOk [(x, v)]
+  | CInt z => match v with VInt z' => if Z.eqb z z' then TOk [] else TThrow | _ => TThrow end
+  | CStr s => match v with
+              | VStr s' => if String.eqb s s' then TOk [] else TThrow
+              | VErr => TUnsupp
+              | _ => TThrow
+              end
+  | CWild None => TOk []
+  | CWild (Some TInt) => match v with VInt _ => TOk [] | _ => TThrow end
+  | CWild (Some TStr) => match v with VStr _ | VErr => TOk [] | _ => TThrow end
+  | CWild (Some TList) => match v with VList _ => TOk [] | _ => TThrow end
+  | CList xs =>
+      match v with
+      | VList l => if Nat.eqb (List.length l) (List.length xs) && nodupb xs then TOk (combine xs l) else TThrow
+      | VStr _ | VDict _ | VErr => TUnsupp
+      | _ => TThrow
+      end
+  end.
+
 (* ---------------------------------------------------------------- parameters (assign_all in eval.rs) *)
 Definition pname (p : param) : name := snd (fst p).
 
@@ -442,6 +472,21 @@ Section WithRec.
     | r => r
     end.
 
+  (* Try with a selective catch pattern: a pattern that refuses the thrown value lets the
+     ORIGINAL throw continue, untouched (Err(_) => Err(NErr::Throw(e, trace)) in the Try arm) *)
+  Definition eval_tryp (st : state) (cur : nat) (b : expr) (p : cpat) (h : expr) : result val :=
+    match rec st cur b with
+    | (st1, Sig (SThrow v)) =>
+        match match_cpat p v with
+        | TOk bs =>
+            let '(st2, fr) := push_frame st1 cur in
+            bindR (declare_all st2 fr bs) (fun st3 _ => rec st3 fr h)
+        | TThrow => (st1, Sig (SThrow v))
+        | TUnsupp => unsupported st1
+        end
+    | r => r
+    end.
+
   (* Closure::run step 1: bind the arguments in the fresh frame (defaults are evaluated in it,
      before any parameter is declared) *)
   Definition bind_params (st : state) (fr : nat) (ps : list param) (args : list val) : result unit :=
@@ -553,6 +598,7 @@ Section WithRec.
     | EReturn None => (st, Sig (SReturn VNull))
     | EReturn (Some e1) => bindR (rec st cur e1) (fun st1 v => (st1, Sig (SReturn v)))
     | ETry b x h => eval_try st cur b x h
+    | ETryP b p h => eval_tryp st cur b p h
     | EThrow e1 => bindR (rec st cur e1) (fun st1 v => (st1, Sig (SThrow v)))
     | EAnd a b => eval_shortcut 0 st cur a b
     | EOr a b => eval_shortcut 1 st cur a b
@@ -603,6 +649,15 @@ Proof. reflexivity. Qed.
 Example ex_break2 :
   snd (run 20 (EFor [CIter "x" (EList [(false, EInt 1); (false, EInt 2)])]
                  (FYield (EWhile (EInt 1) (EBreak 1 (Some (plus (V "x") (EInt 10)))))))) = Val (VInt 11).
+Proof. reflexivity. Qed.
+
+(* a catch pattern that refuses the value lets the original value travel on to the outer catch *)
+Example ex_selective_catch :
+  snd (run 20 (EList [(false, ETry (ETryP (EThrow (EInt 5)) (CInt 0) (EStr "zero")) "e" (EList [(false, V "e")]));
+                      (false, ETryP (ETryP (EThrow (EStr "s")) (CWild (Some TInt)) (EInt 1)) (CWild (Some TStr)) (EInt 2));
+                      (false, ETryP (EThrow (EList [(false, EInt 1); (false, EInt 2)])) (CList ["a"; "b"]) (V "b"));
+                      (false, ETry (ETryP (EThrow (EList [(false, EInt 1)])) (CList ["a"; "b"]) (V "b")) "e" (V "e"))]))
+  = Val (VList [VList [VInt 5]; VInt 2; VInt 2; VList [VInt 1]]).
 Proof. reflexivity. Qed.
 
 (* into: a catamorphism (sum), CataFirst leaving the loop at once, a closure applied to the list *)
